@@ -406,6 +406,10 @@ class Prover:
         if D[0] == "discr":
             out.append(("variant", D[1], v))
             sg = D[1]
+            if sg[0] == "try" and isinstance(sg[1], tuple) and sg[1] and sg[1][0] in ("slicegetr", "sliceget") and v in (0, 1):
+                # `slice.get(..)?`: Continue (0) is Some (1), Break (1) is None (0)
+                self.decompose_eq(("discr", sg[1]), 1 - v, dty, out)
+                return
             if sg[0] == "slicegetr" and v == 1:
                 sl = sg[1]
                 ln = self.lin(self.an.len_of(sl[1]))
@@ -639,6 +643,11 @@ def _const_bool(an, v, depth=0):
 
 
 
+def residual_variant(v):
+    """variant index of what `?` returns early: Err (1) of a Result, None (0) of an Option"""
+    return 0 if "core::option::" in v[1] else 1
+
+
 def variant_index(an, agg):
     """index of the variant an aggregate value builds (None if unknown)"""
     if agg[0] != "agg" or not isinstance(agg[1], str) or not agg[1].startswith("adt:"):
@@ -685,7 +694,7 @@ def compute_threads(an):
             # the switch tests the variant of an enum carried inside one variant of the joined value (`match f(..)? {..}`)
             _, k0, fi = boolneg
             if v[0] == "call" and v[1].endswith("from_residual"):
-                return "skip" if k0 == 0 else None
+                return "skip" if k0 != residual_variant(v) else None
             if v[0] != "agg":
                 return None
             vi = variant_index(an, v)
@@ -700,7 +709,7 @@ def compute_threads(an):
             # the switch tests a boolean field of one variant of the joined enum value (`if helper(..)? {..}`)
             _, k0, fi, neg = boolneg
             if v[0] == "call" and v[1].endswith("from_residual"):
-                return "skip" if k0 == 0 else None
+                return "skip" if k0 != residual_variant(v) else None
             if v[0] != "agg":
                 return None
             vi = variant_index(an, v)
@@ -720,7 +729,7 @@ def compute_threads(an):
         if v[0] == "agg":
             return variant_index(an, v)
         if v[0] == "call" and v[1].endswith("from_residual"):
-            return 1
+            return residual_variant(v)
         return None
 
     unknown = {}
